@@ -95,6 +95,10 @@ func c16Gen(t *rapid.T) c16Plan {
 		if opt.TLS == 0 && len(spec.Hosts) > 0 {
 			opt.CertOnly = rapid.IntRange(0, 2).Draw(t, "cert-without-tls") == 0
 		}
+		if old := m.Svcs[svc]; old != nil && old.Opt.TLS == 1 && rapid.IntRange(0, 2).Draw(t, "tls-off-same-cert") == 0 {
+			// the same service again, TLS switched off but the certificate paths still given
+			spec, opt = old.Spec, vfOpts{CertOnly: true, NoRedirect: old.Opt.NoRedirect}
+		}
 		c := vfCmd{Op: "deploy", Svc: svc, Spec: spec, Targets: vfPick(t, vfActivePool, 2, "target"), Opt: opt}
 		if got := m.apply(c); got[0] != "ok" {
 			panic(fmt.Sprintf("c16Gen: %v", got))
